@@ -95,3 +95,222 @@ Example C02_automaton :
   lexq Normal [97; 45; 36]%N = Normal /\
   lexq Normal [97; 45]%N = SeenMinus.
 Proof. vm_compute. repeat split; reflexivity. Qed.
+
+(* ------------------------------------------------------------------------
+   Second sentence of C02: text inside an expression - the arguments of a
+   function-call column, the literal values of an INSERT - is passed through
+   unchanged.  Proofs in Proofs/ParserInner.v (parser) and
+   Proofs/OutputColumns.v (binding and SQL generation). *)
+From SQLair.Model Require Import GenConsts Reflect TypeInfo Bind.
+From SQLair.Proofs Require Import ParserExt ParserTiling ParserDepth ParserInner InsertProofs
+  BindInputsProofs OutputColumns ExampleEnv.
+
+(* Parentheses are specified by the automaton extended with a depth
+   (Proofs/ParserDepth.v): [drun sc (Some (q, d)) bs] runs over the bytes bs from
+   automaton state q and depth d.  A '(' read outside literals and comments
+   increments the depth, a ')' read outside decrements it; a ')' at depth 0
+   makes the run fail (None); with sc = true (literal mode) a ',' read outside
+   at depth 0 makes it fail as well.  All other bytes only step the automaton.
+   So  drun false (Some (Normal, 0)) body = Some (q, 0)  says: every ')' of body
+   that is outside literals and comments matches an earlier '(' of body, and
+   every '(' is closed. *)
+
+(* A function-call column f of an output expression whose source text is raw
+   (which follows the text pre of the query, by C01): f is a contiguous piece
+   of raw; the automaton is outside literals and comments where f starts and in
+   state Normal where f ends; f ends with ')'; and f on its own is lexically
+   closed (the automaton started on f ends in Normal), so every quote or
+   comment opened in the arguments is closed in the arguments. *)
+Theorem C02_function_column_verbatim :
+  forall (inp : str) (segs s1 : list expr) raw cols targets (s2 : list expr) (f : str),
+    parse inp = Ok segs -> segs = s1 ++ Output raw cols targets :: s2 -> In (FuncCol f) cols ->
+    (let pre := concat (map raw_of s1) in
+     exists a b, raw = a ++ f ++ b /\
+       normal_like (lexq Normal (pre ++ a)) = true /\
+       lexq Normal (pre ++ a ++ f) = Normal /\
+       lexq Normal f = Normal /\
+       (exists p, f = p ++ [41%N]) /\
+       (* identifier, then a group that ends at the matching parenthesis *)
+       exists id body q1 q2, f = id ++ [40%N] ++ body ++ [41%N] /\
+         drun false (Some (Normal, 0)) id = Some (q1, 0) /\ normal_like q1 = true /\
+         drun false (Some (Normal, 0)) body = Some (q2, 0) /\ normal_like q2 = true).
+Proof.
+  intros inp segs s1 raw cols targets s2 f P D I pre.
+  pose proof (parse_inner _ _ _ _ _ P D) as X. cbn [seg_inner] in X.
+  destruct (X f I) as [a [b [E [H1 [H2 [H3 [H4 H5]]]]]]]. exists a, b.
+  rewrite <- app_assoc in H2. repeat (split; [assumption|]). exact H5.
+Qed.
+Print Assumptions C02_function_column_verbatim.
+
+(* the same for the function-call columns of an INSERT column list *)
+Theorem C02_insert_function_column_verbatim :
+  forall (inp : str) (segs s1 : list expr) (e : expr) cols (s2 : list expr) (f : str),
+    parse inp = Ok segs -> segs = s1 ++ e :: s2 ->
+    (exists raw vals, e = BasicIns raw cols vals) \/ (exists raw srcs, e = ColumnsIns raw cols srcs) ->
+    In (FuncCol f) cols ->
+    (let pre := concat (map raw_of s1) in
+     exists a b, raw_of e = a ++ f ++ b /\
+       normal_like (lexq Normal (pre ++ a)) = true /\
+       lexq Normal (pre ++ a ++ f) = Normal /\
+       lexq Normal f = Normal /\
+       (exists p, f = p ++ [41%N]) /\
+       exists id body q1 q2, f = id ++ [40%N] ++ body ++ [41%N] /\
+         drun false (Some (Normal, 0)) id = Some (q1, 0) /\ normal_like q1 = true /\
+         drun false (Some (Normal, 0)) body = Some (q2, 0) /\ normal_like q2 = true).
+Proof.
+  intros inp segs s1 e cols s2 f P D K I pre.
+  pose proof (parse_inner _ _ _ _ _ P D) as X.
+  assert (Y : piece pre (raw_of e) f func_piece).
+  { destruct K as [[raw [vals ->]]|[raw [srcs ->]]]; cbn [seg_inner raw_of] in *.
+    - exact (proj1 X f I).
+    - exact (X f I). }
+  destruct Y as [a [b [E [H1 [H2 [H3 [H4 H5]]]]]]]. exists a, b. rewrite <- app_assoc in H2.
+  repeat (split; [assumption|]). exact H5.
+Qed.
+Print Assumptions C02_insert_function_column_verbatim.
+
+(* A literal value of an INSERT.  The statement asked for - the automaton is
+   in state Normal where the literal ends - is FALSE in the model (and in the
+   Go code): the literal "1 -" of  (c1, c2) VALUES ($T.a, 1 -)  ends in the
+   lookahead state SeenMinus (a '-' that might open a comment); likewise a
+   literal ending in '/'.  The lookahead is harmless because the next byte is
+   the ',' or ')' that ended the literal. *)
+Definition C02_insert_literal_verbatim_statement : Prop :=
+  forall (inp : str) (segs s1 : list expr) raw cols vals (s2 : list expr) (s : str),
+    parse inp = Ok segs -> segs = s1 ++ BasicIns raw cols vals :: s2 -> In (VLit s) vals ->
+    (let pre := concat (map raw_of s1) in
+     exists a b, raw = a ++ s ++ b /\
+       normal_like (lexq Normal (pre ++ a)) = true /\
+       lexq Normal (pre ++ a ++ s) = Normal).
+
+Lemma lex_step_minus_not_normal q : lex_step q 45%N <> Normal.
+Proof. destruct q; discriminate. Qed.
+
+Theorem C02_insert_literal_verbatim_counterexample : ~ C02_insert_literal_verbatim_statement.
+Proof.
+  intros St.
+  (* (c1, c2) VALUES ($T.a, 1 -) *)
+  pose (inp := [40; 99; 49; 44; 32; 99; 50; 41; 32; 86; 65; 76; 85; 69; 83; 32; 40; 36; 84; 46; 97;
+                44; 32; 49; 32; 45; 41]%N).
+  assert (P : parse inp = Ok [BasicIns inp [BasicCol [] [99; 49]%N; BasicCol [] [99; 50]%N]
+                                [VMem {| tname := [84%N]; mname := [97%N] |}; VLit [49; 32; 45]%N]])
+    by (vm_compute; reflexivity).
+  destruct (St inp _ [] _ _ _ [] [49; 32; 45]%N P eq_refl) as [a [b [_ [_ H]]]].
+  { right. left. reflexivity. }
+  cbn [map concat app] in H.
+  change [49; 32; 45]%N with ([49; 32] ++ [45])%N in H. rewrite app_assoc, lexq_app in H.
+  exact (lex_step_minus_not_normal _ H).
+Qed.
+Print Assumptions C02_insert_literal_verbatim_counterexample.
+
+(* The strongest true variant: a literal value s of an INSERT is a contiguous
+   piece of the source text; the automaton is outside literals and comments
+   where s starts and where s ends (Normal, or the harmless lookahead states
+   after '-' or '/'); the byte after s is the top-level ',' or ')' that ended
+   it, after which the automaton is in Normal; and s on its own is lexically
+   closed: every literal or comment opened in s is closed in s. *)
+Theorem C02_insert_literal_verbatim_partial :
+  forall (inp : str) (segs s1 : list expr) raw cols vals (s2 : list expr) (s : str),
+    parse inp = Ok segs -> segs = s1 ++ BasicIns raw cols vals :: s2 -> In (VLit s) vals ->
+    (let pre := concat (map raw_of s1) in
+     exists a c t, raw = a ++ s ++ c :: t /\ (c = 44%N \/ c = 41%N) /\
+       normal_like (lexq Normal (pre ++ a)) = true /\
+       normal_like (lexq Normal (pre ++ a ++ s)) = true /\
+       lexq Normal (pre ++ a ++ s ++ [c]) = Normal /\
+       normal_like (lexq Normal s) = true /\
+       (* s is a run of whole literals, whole comments, balanced groups and
+          other bytes: no unmatched ')' and no ',' at depth 0 *)
+       exists q', drun true (Some (Normal, 0)) s = Some (q', 0)).
+Proof.
+  intros inp segs s1 raw cols vals s2 s P D I pre. subst pre.
+  pose proof (parse_inner _ _ _ _ _ P D) as X. cbn [seg_inner] in X.
+  destruct (proj2 X s I) as [a [b [E [H1 [H2 [H3 [[t H4] H5]]]]]]].
+  rewrite <- app_assoc in H2.
+  assert (K : forall c, (c = 44%N \/ c = 41%N) -> lexq Normal (concat (map raw_of s1) ++ a ++ s ++ [c]) = Normal).
+  { intros c Hc. rewrite !app_assoc, lexq_app, <- !app_assoc. cbn [lexq fold_left].
+    destruct (lexq Normal (concat (map raw_of s1) ++ a ++ s)); try discriminate H2; destruct Hc; subst c; reflexivity. }
+  destruct H4 as [H4|H4]; subst b; exists a; eexists; exists t;
+    (split; [exact E|]); (split; [auto|]); auto 7.
+Qed.
+Print Assumptions C02_insert_literal_verbatim_partial.
+
+(* Binding and SQL generation pass both kinds of inner text through unchanged:
+   in a query that was parsed, prepared and bound, the text of every
+   function-call column of an output expression is the column text of an output
+   token "f AS _sqlair_n" of the generated SQL; and every literal value of an
+   INSERT is a text cell of every generated tuple, at the position of its
+   column in the generated column list. *)
+Theorem C02_inner_text_reaches_sql :
+  forall env (inp : str) (segs : list expr) samples tbe args pq,
+    parse inp = Ok segs ->
+    bind_types env segs samples = BOk tbe -> bind_inputs env tbe args = BOk pq ->
+    (forall raw cols targets f, In (Output raw cols targets) segs -> In (FuncCol f) cols ->
+       exists n, In (TOut f n) (pq_toks pq)) /\
+    (forall raw cols vals i s, In (BasicIns raw cols vals) segs -> nth_error vals i = Some (VLit s) ->
+       exists c pre names rows post j,
+         nth_error cols i = Some c /\
+         pq_toks pq = pre ++ write_insert names rows ++ post /\ rows <> [] /\
+         nth_error names j = Some (columnName c) /\
+         Forall (fun row => nth_error row j = Some (TText s)) rows).
+Proof.
+  intros env inp segs samples tbe args pq P BT BI.
+  destruct (inner_text_reaches_sql _ _ _ _ _ _ BT BI) as [H1 H2]. split; [|exact H2].
+  intros raw cols targets f Ie If. eapply H1; [exact Ie|exact If|].
+  destruct (in_split _ _ Ie) as [s1 [s2 D]].
+  pose proof (parse_inner _ _ _ _ _ P D) as X. cbn [seg_inner] in X.
+  destruct (X f If) as [a [b [_ Fp]]]. eapply func_piece_not_star. exact Fp.
+Qed.
+Print Assumptions C02_inner_text_reaches_sql.
+
+(* the depth automaton:  a, ')' /* ) */  is balanced;  )  is not;  1, 2  fails
+   in literal mode only;  f(1, 2)  is fine in literal mode *)
+Example C02_depth_automaton :
+  drun false (Some (Normal, 0)) [97; 44; 32; 39; 41; 39; 32; 47; 42; 32; 41; 32; 42; 47]%N = Some (Normal, 0) /\
+  drun false (Some (Normal, 0)) [41]%N = None /\
+  drun false (Some (Normal, 0)) [40; 40; 41]%N = Some (Normal, 1) /\
+  drun false (Some (Normal, 0)) [49; 44; 32; 50]%N = Some (Normal, 0) /\
+  drun true (Some (Normal, 0)) [49; 44; 32; 50]%N = None /\
+  drun true (Some (Normal, 0)) [102; 40; 49; 44; 32; 50; 41]%N = Some (Normal, 0).
+Proof. vm_compute. repeat split; reflexivity. Qed.
+
+From Coq Require Import String.
+
+(* Non-vacuity.  max(id, ')' /* ) */) AS &M.k : the quote and the comment in
+   the arguments contain closing parentheses; the column reaches the SQL
+   unchanged. *)
+Example C02_function_column_applies :
+  let inp := s "SELECT max(id, ')' /* ) */) AS &M.k FROM t" in
+  let f := s "max(id, ')' /* ) */)" in
+  exists segs tbe pq,
+    parse inp = Ok segs /\
+    segs = [Bypass (s "SELECT "); Output (s "max(id, ')' /* ) */) AS &M.k") [FuncCol f] [ma "M" "k"];
+            Bypass (s " FROM t")] /\
+    bind_types ex_env segs [Some 3] = BOk tbe /\
+    bind_inputs ex_env tbe [] = BOk pq /\
+    pq_toks pq = [TText (s "SELECT "); TOut f 0; TText (s " FROM t")].
+Proof.
+  eexists. eexists. eexists. split; [vm_compute; reflexivity|]. split; [reflexivity|].
+  split; [vm_compute; reflexivity|]. split; vm_compute; reflexivity.
+Qed.
+
+(* (id, name) VALUES ($Person.id, f('(' , "q""q") -- c [newline] ) : the
+   literal value contains a quoted parenthesis, a doubled quote and a line
+   comment; it reaches the generated tuple unchanged. *)
+Example C02_insert_literal_applies :
+  let nl := String (Ascii.ascii_of_nat 10) EmptyString in
+  let inp := s ("INSERT INTO t (id, name) VALUES ($Person.id, f('(' , ""q""""q"") -- c" ++ nl ++ " )") in
+  let lit := s ("f('(' , ""q""""q"") -- c" ++ nl ++ " ") in
+  exists raw tbe pq,
+    parse inp = Ok [Bypass (s "INSERT INTO t ");
+                    BasicIns raw [BasicCol [] (s "id"); BasicCol [] (s "name")]
+                             [VMem (ma "Person" "id"); VLit lit]] /\
+    bind_types ex_env [Bypass (s "INSERT INTO t ");
+                    BasicIns raw [BasicCol [] (s "id"); BasicCol [] (s "name")]
+                             [VMem (ma "Person" "id"); VLit lit]] [Some 2] = BOk tbe /\
+    bind_inputs ex_env tbe [AVal 2 (person 1 10)] = BOk pq /\
+    pq_toks pq = [TText (s "INSERT INTO t ")] ++
+                 write_insert [s "id"; s "name"] [[TParam 0; TText lit]].
+Proof.
+  eexists. eexists. eexists. split; [vm_compute; reflexivity|].
+  split; [vm_compute; reflexivity|]. split; vm_compute; reflexivity.
+Qed.
